@@ -7,6 +7,7 @@ let run_job (job : Sx.t) : string =
   | "builder" -> Jbuilder.job_builder job
   | "literal" -> Jlit.job_literal job
   | "sem" -> Jprog.job_sem job
+  | "sizes" -> Jprog.job_sizes job
   | "bristol-out" -> Jbristol.job_bristol_out job
   | "bristol-in" -> Jbristol.job_bristol_in job
   | "exhaust" -> Jexhaust.job_exhaust job
